@@ -156,6 +156,32 @@ open ElaVerif.CoinbaseTotal in
 /-- NEGATION (pre-fix code): below the restriction height (validation off) signer index 5 of 3 arbiters panics. -/
 theorem C03_signerLoop_unguarded_panics : signerLoop false false 3 [5] [] = .panic := by decide
 
+/-! ## block sanity head and ReturnDepositCoin signer loop (round 3) -/
+open ElaVerif.CoinbaseTotal in
+/-- `CheckBlockSanity` up to the coinbase-position tests never panics: the empty transaction list is
+    rejected before `transactions[0]` is read — for every block, in particular every decodable one
+    (a block with zero transactions decodes). -/
+theorem C03_blockSanityHead_total (b : BlockIn) : blockSanityHead false b ≠ .panic := blockSanityHead_total b
+example : ElaVerif.CoinbaseTotal.blockSanityHead false ⟨true, true, true, 10000, true, true, [true, false]⟩ = .val none := by decide
+
+open ElaVerif.CoinbaseTotal in
+/-- NEGATION for the order "coinbase tests first": an empty block panics. -/
+theorem C03_blockSanityHead_indexFirst_panics :
+    blockSanityHead true ⟨true, true, true, 10000, true, true, []⟩ = .panic := by decide
+
+open ElaVerif.CoinbaseTotal in
+/-- the signer loop of `ReturnDepositCoinTransaction.SpecialContextCheck` never panics when every program
+    code has at least 2 bytes (the transaction's own sanity check demands ≥ 23): an unregistered signer —
+    multi-sig or not — is an error, never a nil producer. -/
+theorem C03_returnDeposit_total (addrCount : Nat) (progs : List (Bytes × Bool)) (ov : Bool)
+    (h : ∀ x ∈ progs, 2 ≤ x.1.length) : returnDepositCheck false addrCount progs ov ≠ .panic :=
+  returnDepositCheck_total addrCount progs ov h
+example : ElaVerif.CoinbaseTotal.returnDepositCheck false 1 [(ms22, true)] true = .val (some .overspend) := by decide
+
+open ElaVerif.CoinbaseTotal in
+/-- NEGATION for the variant that tests `p == nil` only for non-multi-sig codes: an unregistered 2-of-2 script panics. -/
+theorem C03_returnDeposit_nilcheck_panics : returnDepositCheck true 1 [(ms22, false)] true = .panic := by decide
+
 /-! ## T-gen: the accesses and guards of the real functions are the ones the models were written against -/
 
 def exp_isStandard : List String := [
@@ -334,6 +360,41 @@ def exp_checkSchnorrWithdrawFromSidechain : List String := [
 ]
 
 
+def exp_checkBlockSanity : List String := [
+  "guard !header.AuxPow.Check(&hash, AuxPowChainID)",
+  "guard CheckProofOfWork(&header, b.chainParams.PowConfiguration.PowLimit) != nil",
+  "guard !tempTime.Equal(time.Unix(tempTime.Unix(), 0))",
+  "guard tempTime.After(maxTimestamp)",
+  "guard numTx == 0",
+  "guard uint32(numTx) > pact.MaxTxPerBlock",
+  "guard headerSize > int(pact.MaxBlockHeaderSize)",
+  "guard blockSize > int(pact.MaxBlockContextSize+pact.MaxBlockHeaderSize)",
+  "guard !transactions[0].IsCoinBaseTx()",
+  "idx transactions[0]",
+  "slice transactions[1:]",
+  "guard tx.IsCoinBaseTx()",
+  "guard exists",
+  "idx existingTxIDs[txID]",
+  "idx existingTxIDs[txID]",
+  "guard err != nil",
+  "guard exists",
+  "idx existingTxInputs[referKey]",
+  "idx existingTxInputs[referKey]",
+  "guard err != nil",
+  "guard err != nil",
+  "guard !header.MerkleRoot.IsEqual(calcTransactionsRoot)"
+]
+
+def exp_returnDepositSpecialContextCheck : List String := [
+  "idx fromAddrMap[output.ProgramHash]",
+  "guard len(fromAddrMap) != 1",
+  "guard output.ProgramHash.IsEqual(programHash)",
+  "guard contract.IsMultiSig(program.Code)",
+  "slice program.Code[1 : len(program.Code)-1]",
+  "guard p == nil",
+  "guard inputValue-changeValue > availableAmount || outputValue >= availableAmount"
+]
+
 /-- opcode / prefix / size constants used by the models are the repository's. -/
 theorem C03_gen_constants :
     Gen.C03.PUSH1 = PUSH1 ∧ Gen.C03.PUSH16 = PUSH16 ∧ Gen.C03.CHECKSIG = CHECKSIG ∧
@@ -366,7 +427,9 @@ theorem C03_gen_accesses :
     Gen.C03.checkCoinbaseTransactionContext = exp_checkCoinbaseTransactionContext ∧
     Gen.C03.checkCoinbaseArbitratorsReward = exp_checkCoinbaseArbitratorsReward ∧
     Gen.C03.coinbaseCheckTransactionOutput = exp_coinbaseCheckTransactionOutput ∧
-    Gen.C03.checkSchnorrWithdrawFromSidechain = exp_checkSchnorrWithdrawFromSidechain := by
-  refine ⟨rfl, rfl, rfl, rfl, rfl, rfl, rfl, rfl, rfl, rfl, rfl, rfl, rfl, rfl, rfl, rfl, rfl, rfl, rfl⟩
+    Gen.C03.checkSchnorrWithdrawFromSidechain = exp_checkSchnorrWithdrawFromSidechain ∧
+    Gen.C03.checkBlockSanity = exp_checkBlockSanity ∧
+    Gen.C03.returnDepositSpecialContextCheck = exp_returnDepositSpecialContextCheck := by
+  refine ⟨rfl, rfl, rfl, rfl, rfl, rfl, rfl, rfl, rfl, rfl, rfl, rfl, rfl, rfl, rfl, rfl, rfl, rfl, rfl, rfl, rfl⟩
 
 end ElaVerif.C03
